@@ -1247,7 +1247,7 @@ def build_cases(tier, seed):
         text = to_block(t) if i % 3 else gen.to_yaml(t) + "\n"
         for j, expr in enumerate(PATHS_EXPR):
             for k, opts in enumerate(PATHS_OPTS):
-                if (i + j + k) % (4 if quick else 2):
+                if (i + j + k) % (4 if quick else 3):
                     continue
                 cases.append({"tool": "paths", "doc": text, "shape": shape(t), "expr": expr, "opts": opts})
     for name, text in RAW_DOCS:
